@@ -97,6 +97,19 @@ class JaqalLexer(Lexer):
         token.value = int(token.value[1:-1], base=2)
         return token
 
+    def error(self, token):
+        """Standard callback by the lexer for text that matches no token."""
+        raise JaqalParseError(
+            "<string>",
+            self.lineno,
+            self._compute_col(token.index),
+            f"Illegal character {token.value[0]!r}",
+        )
+
+    def _compute_col(self, index):
+        """Return the 1-based column of the given offset into the text."""
+        return index - self.text.rfind("\n", 0, index)
+
 
 class JaqalParser(Parser):
     """Parse Jaqal into core types."""
